@@ -4,6 +4,7 @@
 mod util;
 mod c01;
 mod c09;
+mod c11;
 mod c12;
 mod c14;
 mod c16;
@@ -21,6 +22,7 @@ fn dispatch(case: &Value) -> Value {
     match p {
         "c01" => c01::run(k, case),
         "c09" => c09::run(k, case),
+        "c11" => c11::run(k, case),
         "c12" => c12::run(k, case),
         "c14" => c14::run(k, case),
         "c16" => c16::run(k, case),
